@@ -538,11 +538,13 @@ impl<'a> Walk<'a> {
         ans.failed
     }
     fn some_text(&mut self) -> String {
-        match self.rng.below(6) {
+        match self.rng.below(7) {
             0 => gen::text(self.rng),
             1 => gen::ident(self.rng),
             2 => "".into(),
             3 => "é€😀".into(),
+            // exactly ONE kind of character that a writer escapes, in otherwise plain text
+            4 => self.rng.pick(&["cost: $5", "$", "a$b", "US$ 100", "${x}", "say \"hi\"", "back\\slash", "tab\there", "tick`s", "line\nbreak", "€5 $5"]).to_string(),
             _ => self.rng.pick(KEYS).to_string(),
         }
     }
